@@ -18,12 +18,12 @@ CHECKS = {
  'C03': dict(
    category='model_checking', design_ref='DESIGN.md 5 C03',
    technique='exhaustive exploration (z3 all-SAT over the verdict bits of a hash-class oracle family) of the real strategies asserting that no accepted input repeats; bounded-exhaustive enumeration of all two-step proposal chains and a step bound on every mutator call (concrete, auxiliary)',
-   text='Bounded claim (unbounded termination is not decidable here - no ranking function, docs/faq.rst): under every command of the hash-class family - which contains the adversarial commands that accept exactly the members of a would-be cycle - the hierarchical, ddmin and hybrid strategies never accept an input they accepted before, on 8 cycle-prone scripts with all 61 mutators enabled; no proposal leaves its input unchanged and no two proposals in sequence lead back to the start (about 50 000 chains enumerated); every filter/mutations/apply call stays below 64 (n+1)^2 node constructions.',
+   text='Bounded claim (unbounded termination is not decidable here - no ranking function, docs/faq.rst): under every command of the hash-class family - which contains the adversarial commands that accept exactly the members of a would-be cycle - the hierarchical, ddmin and hybrid strategies never accept an input they accepted before, on 12 cycle-prone scripts with all 61 mutators enabled; no proposal leaves its input unchanged and no two proposals in sequence lead back to the start (about 170 000 chains on the hand-written scripts and 520 000 on the scripts of the typed term generator in the quick tier), except inside the region of known finding C03-replace-by-variable-eliminate-variable, which is replayed and reported on every run; every filter/mutations/apply call stays below 64 (n+1)^2 node constructions.',
    note='Trusted: oracle/pool stubs (C05); z3 as exhaustive enumerator. Outside: chains longer than two steps that no explored run follows; inputs outside the corpus; runs with more than 40 acceptances are cut off and counted.'),
  'C04': dict(
    category='model_checking', design_ref='DESIGN.md 5 C04',
    technique='bounded symbolic execution (CrossHair/z3): parser on every text up to the bound without the balancedness precondition; theory detection / collect_information / counting / rendering on command trees whose identifier leaves are symbolic strings (the solver finds the magic names); exit-status and usage-error mapping with symbolic outcomes; exception isolation by bounded enumeration',
-   text='No exception escapes parse_smtlib for any text up to the bound; none escapes auto_detect_theories (all is_relevant), collect_information, count_* or the renderer on any command tree shape up to the bound with an arbitrary identifier at the command position or at any one other leaf; __main__.main returns 0 iff ddsmt_main completed and the executable exits with exactly that value (rc symbolic in 0..255); every usage error of check_options is one one-line DDSMTException. A mutator raising any of 7 exception classes at any call site costs only its own candidates in both strategies (224 combinations each, enumerated).',
+   text='Whole runs of cli.ddsmt_main on degenerate inputs (atoms only, comments, empty lists, empty file) under every verdict vector in the bound end without an exception (e2e_*). No exception escapes parse_smtlib for any text up to the bound; none escapes auto_detect_theories (all is_relevant), collect_information, count_* or the renderer on any command tree shape up to the bound with an arbitrary identifier at the command position or at any one other leaf; __main__.main returns 0 iff ddsmt_main completed and the executable exits with exactly that value (rc symbolic in 0..255); every usage error of check_options is one one-line DDSMTException. A mutator raising any of 7 exception classes at any call site costs only its own candidates in both strategies (224 combinations each, enumerated).',
    note='Trusted: CrossHair/z3 string model; hash shim T; Node.__format__ shim; fake os.path in the usage harness; the isolation sub-check is concrete enumeration (auxiliary). Outside: more than one non-command symbolic identifier at a time, deeper trees, failures inside real worker processes.'),
  'C05': dict(
    category='model_checking', design_ref='DESIGN.md 5 C05',
